@@ -204,5 +204,64 @@ FACETS = [
           shards={'quick': 2, 'thorough': 8}, backend='torch'),
 ]
 
+
+# ---- build histories: take / compile / compile-layers / copy interleaved (a compiled circuit that is extended and recompiled) -------------
+def run_history(be, N, steps, cls='CliffordCircuit'):
+    """returns (circuit, gate dicts in insertion order, library gates, stale?) - stale = a compiled map may legitimately ignore later gates
+    (the library documents that compiled information is not updated when gates are added; a fresh compile() must refresh everything)."""
+    Bk = B.backend(be)
+    cm = Bk.mods()['c']
+    circ = cm.identity_circuit(N) if (be == 'torch' or cls == 'CliffordCircuit') else cm.Circuit(N)
+    prog, gates = [], []
+    stale = False
+    for stp in steps:
+        t = stp['t']
+        if t == 'take':
+            compiled_somewhere = circ.forward_map is not None or any(l.forward_map is not None for l in circ.layers_forward())
+            g = C.gate_lib(stp['gate'], be)
+            circ.take(g)
+            prog.append(stp['gate']); gates.append(g)
+            stale = stale or compiled_somewhere
+        elif t == 'compile':
+            circ.compile()
+            stale = False
+        elif t == 'compile-layers':
+            for layer in circ.layers_forward():
+                layer.compile(N)
+            stale = circ.forward_map is not None and stale
+        elif t == 'copy' and hasattr(circ, 'copy'):
+            circ = circ.copy()
+    return circ, prog, gates, stale
+
+
+def f_history(case):
+    be, N = case['be'], case['N']
+    circ, prog, gates, stale = run_history(be, N, case['steps'], case.get('cls', 'CliffordCircuit'))
+    kind = case['input']['kind']
+    obj, L, K = make_input(be, N, case['input'])
+    circ.forward(obj)
+    got = read_obj(be, obj, kind)
+    if not stale:
+        total = C.program_ref(prog, N, gates)
+        C.expect_list(got[:2], total.apply(L, K), 'circuit built by the history %s: forward vs reference product of %d gates' % ([x['t'] for x in case['steps']], len(prog)), 'history-forward')
+    ts = [x['t'] for x in case['steps']]
+    comp = [i for i, x in enumerate(ts) if x in ('compile', 'compile-layers')]
+    recompiled = len(comp) >= 2 and any(x == 'take' for x in ts[comp[0]:comp[-1]])
+    return {'nt': (not stale) and recompiled and len(prog) >= 2, 'labels': ['N=%d' % N, 'stale' if stale else 'fresh', 'recompiled' if recompiled else 'single-compile']}
+
+
+def st_history(be, hiN, kinds=None, classes=('CliffordCircuit', 'Circuit')):
+    def inner(N):
+        step = st.integers(0, 9).flatmap(lambda i: st.fixed_dictionaries({'t': st.just('take'), 'gate': gen.st_gate(N, kinds)}) if i < 6 else
+                                         st.just({'t': ['compile', 'compile', 'compile-layers', 'copy'][i - 6]}))
+        steps = st.tuples(st.lists(step, min_size=2, max_size=14), st.sampled_from([[], [{'t': 'compile'}], [{'t': 'compile'}], [{'t': 'compile-layers'}]])).map(lambda t: t[0] + t[1])
+        return st.fixed_dictionaries({'be': st.just(be), 'N': st.just(N), 'steps': steps, 'cls': st.sampled_from(list(classes)), 'input': st_input(N)})
+    return st.sampled_from([n for n in (1, 2, 3, 3, 4, 4) if n <= hiN]).flatmap(inner)
+
+
+FACETS.append(Facet('np/build-histories', f_history, strategy=lambda t: st_history('np', 4), examples={'quick': 1500, 'thorough': 60000}, shards={'quick': 3, 'thorough': 12}))
+FACETS.append(Facet('torch/build-histories', f_history, strategy=lambda t: st_history('torch', 3, ['rot', 'fmap', 'bmap'], ('CliffordCircuit',)), examples={'quick': 200, 'thorough': 8000},
+                    shards={'quick': 1, 'thorough': 4}, backend='torch'))
+
 from harness.fuzzfacet import make_fuzz_facet
 FACETS.append(make_fuzz_facet('np/atheris-circuit', 'c09', {'circuit': f_circuit}, {'quick': 3000, 'thorough': 120000}, max_len=256))
